@@ -13,8 +13,8 @@
 From Coq Require Import List Arith NArith Bool.
 Import ListNotations.
 
-Definition bytes := list N.
-Definition entry := (nat * bytes)%type.
+Notation bytes := (list N) (only parsing).
+Notation entry := (nat * list N)%type (only parsing).
 
 Record st := mk { rot : list entry; cur : bytes; size : nat }.
 
